@@ -19,6 +19,10 @@ CONSTANTS Fams,                 \* family names explored by this configuration
           DEV_AddRebuildsFirst, \* add_lanelet rebuilds the tree BEFORE inserting: the last lanelet is missing
           DEV_DeferredRemoveKeepsPolygon, \* remove_lanelet(id, rtree=False) leaves the polygon in the dictionary the index is
                                 \* rebuilt from: the next rebuild resurrects the removed lanelet (seeded change C06-2)
+          DEV_ForkSharesLanelets, \* create_from_lanelet_list(cleanup_ids=False) does not copy the lanelets: a network derived from
+                                \* another one shares its Lanelet objects, and moving the derived network moves the lanelets of the
+                                \* original while the original's index stays (seeded change C06-5)
+          ForkAll,              \* TRUE: a second network may be derived from every network ; FALSE: only from from_list(0) ones
           DEV_DiscHalfRadius    \* lookups by shape use the exported disc of radius r/2 (Circle.shapely_object = buffer(radius / 2))
 
 VARIABLES fam,    \* the family under construction
@@ -27,8 +31,14 @@ VARIABLES fam,    \* the family under construction
           index,  \* lanelet id -> ring: the snapshot the lookups consult
           mode,   \* "new" | "add_each" | "add_defer" | "ready"
           dirty,  \* a deferred step (rtree=False) happened since the last rebuild: the index may be stale (band B3)
-          hist    \* the route sequence
-vars == <<fam, polys, buf, index, mode, dirty, hist>>
+          hist,   \* the route sequence
+          (* two-network histories: a network B derived from A ("fork"); from then on polys / buf / index describe B *)
+          forked, \* "" or the kind of derivation
+          apolys, \* the lanelets of the ORIGINAL network A (its truth now)
+          aindex, \* A's index snapshot
+          asnap   \* A's lanelets at the moment B was derived (A's geometry must never change afterwards)
+vars == <<fam, polys, buf, index, mode, dirty, hist, forked, apolys, aindex, asnap>>
+KeepA == UNCHANGED <<forked, apolys, aindex, asnap>>
 
 Rt(r, a) == [r |-> r, a |-> a]
 Empty    == [i \in {} |-> <<>>]
@@ -50,16 +60,17 @@ Cuts    == <<RectS(<<2, 2>>, 2, 2, Id),                                        \
              [k |-> "poly", v |-> <<<<4, 0>>, <<12, 0>>, <<12, 8>>>>],          \* triangle below the diagonal (2,0)-(6,4)
              [k |-> "disc", c |-> <<4, -3>>, r |-> 4]>>                         \* radius 2 around (2,-1.5): reaches y = 0 at 0.75 r
 
-Init == fam \in Fams /\ polys = Empty /\ buf = Empty /\ index = Empty /\ mode = "new" /\ dirty = FALSE /\ hist = <<>>
+Init == /\ fam \in Fams /\ polys = Empty /\ buf = Empty /\ index = Empty /\ mode = "new" /\ dirty = FALSE /\ hist = <<>>
+        /\ forked = "" /\ apolys = Empty /\ aindex = Empty /\ asnap = Empty
 
 (* a freshly built network: bookkeeping and index are made from the lanelets handed over *)
 Fresh(p)  == polys' = p /\ buf' = p /\ index' = p /\ dirty' = FALSE
-Ready(h)  == mode' = "ready" /\ hist' = h
+Ready(h)  == mode' = "ready" /\ hist' = h /\ KeepA
 FromList(c)    == mode = "new" /\ Fresh(Target(fam)) /\ Ready(<<Rt("from_list", <<c>>)>>) /\ UNCHANGED fam
 AddFromNet     == mode = "new" /\ Fresh(Target(fam)) /\ Ready(<<Rt("add_from_network", <<>>)>>) /\ UNCHANGED fam
 ViaScenario    == mode = "new" /\ Fresh(Target(fam)) /\ Ready(<<Rt("scenario_add", <<>>)>>) /\ UNCHANGED fam
 (* lanelet by lanelet: add_lanelet(l, rtree) ; "add_each": always rtree=True ; "add_defer": rtree=False except for the last one *)
-StartAdd(b)    == mode = "new" /\ mode' = b /\ UNCHANGED <<fam, polys, buf, index, dirty, hist>>
+StartAdd(b)    == mode = "new" /\ mode' = b /\ UNCHANGED <<fam, polys, buf, index, dirty, hist>> /\ KeepA
 AddLanelet     == /\ mode \in {"add_each", "add_defer"}
                   /\ LET ord == Order(fam)  k == Cardinality(DOMAIN polys) + 1  i == ord[k]
                          last == k = Len(ord)
@@ -67,14 +78,18 @@ AddLanelet     == /\ mode \in {"add_each", "add_defer"}
                          np == Ext(polys, i, TruthRing(fam, i))
                      IN /\ polys' = np /\ buf' = np
                         /\ index' = IF ~rtree THEN index ELSE IF DEV_AddRebuildsFirst THEN polys ELSE np
-                        /\ IF last THEN Ready(<<Rt(mode, <<>>)>>) ELSE UNCHANGED <<mode, hist>>
+                        /\ IF last THEN Ready(<<Rt(mode, <<>>)>>) ELSE UNCHANGED <<mode, hist>> /\ KeepA
                   /\ UNCHANGED <<fam, dirty>>
 (* a route sequence has at most MaxRoutes steps; after a deferred step one more step is always allowed for the networks   *)
 (* built by from_list(0), so that "deferred, then each rebuilding operation" is explored without raising the bound        *)
+IsFork(rt) == rt.r \in {"fork_list", "fork_network", "fork_network_cut", "fork_deepcopy"}
 More == /\ mode = "ready"
         /\ \/ Len(hist) < MaxRoutes
            \/ (Len(hist) = MaxRoutes /\ dirty /\ hist[1] = Rt("from_list", <<0>>))
-LogA(r, a)     == hist' = Append(hist, Rt(r, a)) /\ UNCHANGED <<fam, mode>>
+(* ... and one MUTATION (translate_rotate, add, remove) of a network that has just been derived from another one *)
+MoreMut == More \/ (mode = "ready" /\ Len(hist) = MaxRoutes /\ forked # "" /\ IsFork(hist[MaxRoutes]))
+LogH(r, a)     == hist' = Append(hist, Rt(r, a)) /\ UNCHANGED <<fam, mode>>
+LogA(r, a)     == LogH(r, a) /\ KeepA
 Log(r)         == LogA(r, <<>>)
 (* operations that REBUILD the index from the bookkeeping dictionary *)
 Rebuilt(b)     == buf' = b /\ index' = b /\ dirty' = FALSE
@@ -92,29 +107,42 @@ FromNetwork(c) == /\ More
                   /\ LET keep == {i \in DOMAIN polys : ShapeRel(polys[i], Cuts[c], FALSE) = "T"} IN
                      keep # {} /\ Fresh(Restrict(polys, keep))
                   /\ LogA("from_network", <<c>>)
-Remove(i)      == /\ More /\ i \in DOMAIN polys /\ Cardinality(DOMAIN polys) >= 2
+Remove(i)      == /\ MoreMut /\ i \in DOMAIN polys /\ Cardinality(DOMAIN polys) >= 2
                   /\ polys' = Restrict(polys, DOMAIN polys \ {i})
                   /\ buf' = Restrict(buf, DOMAIN buf \ {i}) /\ dirty' = FALSE
                   /\ index' = IF DEV_RemoveNoRebuild THEN index ELSE buf'
                   /\ LogA("remove", <<i>>)
-Motion(m)      == /\ More /\ polys' = MoveFn(m, polys)
+Motion(m)      == /\ MoreMut /\ polys' = MoveFn(m, polys)
                   /\ buf' = Over(buf, polys') /\ dirty' = FALSE          \* the entries of the current lanelets are replaced
                   /\ index' = IF DEV_MoveNoRebuild THEN index ELSE buf'
-                  /\ LogA("translate_rotate", m)
+                  (* the lanelets of the original A are A's own objects: moving B does not touch them *)
+                  /\ apolys' = IF DEV_ForkSharesLanelets /\ forked = "fork_list0"
+                                THEN Over(apolys, Restrict(polys', DOMAIN apolys \cap DOMAIN polys')) ELSE apolys
+                  /\ UNCHANGED <<forked, aindex, asnap>>
+                  /\ LogH("translate_rotate", m)
 (* the extra lanelet: add_lanelet(x) / add_lanelet(x, rtree=False) / add_lanelets_from_network(network holding x) *)
-AddExtra(r)    == /\ More /\ ExtraId \notin DOMAIN polys
+AddExtra(r)    == /\ MoreMut /\ ExtraId \notin DOMAIN polys
                   /\ polys' = Ext(polys, ExtraId, RingOf(Extra)) /\ buf' = Ext(buf, ExtraId, RingOf(Extra))
                   /\ IF r = 0 THEN index' = index /\ dirty' = TRUE ELSE index' = buf' /\ dirty' = FALSE
                   /\ LogA("add_extra", <<r>>)
-AddExtraNet    == /\ More /\ ExtraId \notin DOMAIN polys
+AddExtraNet    == /\ MoreMut /\ ExtraId \notin DOMAIN polys
                   /\ polys' = Ext(polys, ExtraId, RingOf(Extra)) /\ Rebuilt(Ext(buf, ExtraId, RingOf(Extra)))
                   /\ Log("add_extra_net")
 (* remove_lanelet(i, rtree=False): gone from the network at once, the index keeps answering for it until the next rebuild *)
-RemoveNoRtree(i) == /\ More /\ i \in DOMAIN polys /\ Cardinality(DOMAIN polys) >= 2
+RemoveNoRtree(i) == /\ MoreMut /\ i \in DOMAIN polys /\ Cardinality(DOMAIN polys) >= 2
                     /\ polys' = Restrict(polys, DOMAIN polys \ {i})
                     /\ buf' = IF DEV_DeferredRemoveKeepsPolygon THEN buf ELSE Restrict(buf, DOMAIN buf \ {i})
                     /\ index' = index /\ dirty' = TRUE
                     /\ LogA("remove_nortree", <<i>>)
+(* a second network B derived from the current one (A): A is kept, the following steps act on B *)
+Fork(h)        == /\ More /\ forked = "" /\ ~dirty /\ (ForkAll \/ hist[1] = Rt("from_list", <<0>>))
+                  /\ forked' = h /\ apolys' = polys /\ aindex' = index /\ asnap' = polys
+ForkList(c)    == Fork(IF c = 0 THEN "fork_list0" ELSE "fork_list1") /\ Fresh(polys) /\ LogH("fork_list", <<c>>)   \* create_from_lanelet_list(A.lanelets, c)
+ForkNet        == Fork("fork_network") /\ Fresh(polys) /\ LogH("fork_network", <<>>)                              \* create_from_lanelet_network(A)
+ForkCut(c)     == /\ Fork("fork_network_cut")
+                  /\ LET keep == {i \in DOMAIN polys : ShapeRel(polys[i], Cuts[c], FALSE) = "T"} IN keep # {} /\ Fresh(Restrict(polys, keep))
+                  /\ LogH("fork_network_cut", <<c>>)
+ForkCopy       == Fork("fork_deepcopy") /\ polys' = polys /\ Rebuilt(buf) /\ LogH("fork_deepcopy", <<>>)         \* copy.deepcopy(A)
 Next == \/ \E c \in {0, 1} : FromList(c)
         \/ AddFromNet \/ ViaScenario \/ StartAdd("add_each") \/ StartAdd("add_defer") \/ AddLanelet
         \/ DeepCopy \/ DeepCopyOrig \/ Pickle \/ ReadXml \/ ReadPb \/ ReadXmlNet \/ ReadPbNet
@@ -124,6 +152,8 @@ Next == \/ \E c \in {0, 1} : FromList(c)
         \/ \E r \in {0, 1} : AddExtra(r)
         \/ AddExtraNet
         \/ \E i \in 11..15 : RemoveNoRtree(i)
+        \/ \E c \in {0, 1} : ForkList(c)
+        \/ ForkNet \/ ForkCopy \/ \E c \in {1, 3} : ForkCut(c)
 Spec == Init /\ [][Next]_vars
 
 (* ---------------- the contract ---------------- *)
@@ -139,6 +169,8 @@ ProbeShapes == {[k |-> "rect", c |-> <<5, 3>>, l |-> 1, w |-> 1, rot |-> Id],
                 [k |-> "poly", v |-> <<<<6, 6>>, <<10, 6>>, <<6, 10>>>>]}
 Settled == mode = "ready" /\ ~dirty                  \* no deferred step is pending
 IndexMirrors == Settled => index = polys
+(* two networks: whatever happens to B, A keeps its geometry and A's index keeps mirroring it *)
+OriginalIsolated == forked # "" => apolys = asnap /\ aindex = apolys
 BufMirrors   == mode = "ready" => buf = polys          \* the bookkeeping follows the network at once, deferred or not
 (* band (B3): while deferred steps are pending, the index differs from the truth at most on the lanelets they touched *)
 DirtyOnlyPending == (mode = "ready" /\ dirty) =>
